@@ -63,12 +63,50 @@ def check(ctx):
         framer = prog.funcs[framer_q]
         ctx.ob("F1", "%s the chunk is appended to the carry before framing" % cq, p0.events.index(ext[0]) < p0.events.index(outer),
                where=where(ext[0]), function=framer_q, construct="%s/extend-first" % framer_q, nontrivial=False)
-        # F5
-        ctx.ob("F5", "%s framing loop re-reads the carry" % cq, outer.a["lkind"] == "while" and mentions(outer.a.get("test"), B),
+        # F5: a while loop whose every iteration works on the current carry (its test re-reads it, or it is `while True` left
+        # only by the idle-iteration exits F6 demands; the slices F2 checks are slices of the carry as it is in that iteration)
+        t_outer = outer.a.get("test")
+        ctx.ob("F5", "%s framing loop re-reads the carry" % cq, outer.a["lkind"] == "while" and (mentions(t_outer, B) or t_outer == ("const", True)),
                where=where(outer), function=framer_q, construct="%s/loop-test" % framer_q,
-               msg="the framing loop is %s over %s: several packets in one chunk are not all framed" % (outer.a["lkind"], show(outer.a.get("test") or outer.a.get("iter"))))
-        # F1: attribute discipline of the framer functions
+               msg="the framing loop is %s over %s: several packets in one chunk are not all framed" % (outer.a["lkind"], show(t_outer or outer.a.get("iter"))))
+
+        def dispatch_of(evs):
+            """The call that hands a packet on: a method call on self, from the framer's own frame, whose argument is a slice of the carry."""
+            cands = [e for e in evs if e.kind == "CALL" and e.a["recv"] == SELF and e.func == framer_q and e.a["args"] and mentions(e.a["args"][0], B)]
+            sl = [e for e in cands if isinstance(e.a["args"][0], tuple) and e.a["args"][0][0] == "slice"]
+            if sl:
+                return sl[0]
+            # not a slice: still the dispatcher if the packet-type lookup / state dispatch happens inside it (F2 then reports the argument)
+            for c in cands:
+                pre = c.stack + ((c.file, c.line, c.a["func"]),)
+                if any(x.kind in ("CONSTMAP", "DISPATCH") and x.stack[:len(pre)] == pre for x in evs):
+                    return c
+            return None
+
+        def inside(e, call):
+            pre = call.stack + ((call.file, call.line, call.a["func"]),)
+            return e.stack[:len(pre)] == pre
+
+        # which idiom: (a) carry re-bound to its suffix after each packet, or (b) a local offset advanced per packet and one trim at the end
+        off_terms = set()
+        for bp in outer.a["body"]:
+            for e in bp.events:
+                if e.kind == "CALL" and e.a["recv"] == SELF and e.func == framer_q and e.a["args"] and isinstance(e.a["args"][0], tuple) \
+                        and e.a["args"][0][0] == "slice" and e.a["args"][0][1] == B and e.a["args"][0][2] != NONE:
+                    off_terms.add(e.a["args"][0][2])
+        if off_terms:
+            n_disp += offset_idiom(ctx, cls, cq, prog, p0, ent, outer, B, carry, framer_q, framer, cont, off_terms)
+            continue
+        # F1: attribute discipline of the framer and of the helpers it calls (everything but the dispatcher's subtree)
         framer_funcs = {framer_q, ent.func.qual}
+        for bp in outer.a["body"]:
+            Dx = dispatch_of(bp.events)
+            for e in bp.walk():
+                if e.kind != "CALL" or e.a["func"] not in prog.funcs or prog.funcs[e.a["func"]].module.name == "mqtt.pdu":
+                    continue
+                if Dx is not None and (e is Dx or inside(e, Dx)):
+                    continue
+                framer_funcs.add(e.a["func"])
         for fq in sorted(framer_funcs):
             fn = prog.funcs[fq]
             for x in ast.walk(fn.node):
@@ -81,44 +119,12 @@ def check(ctx):
                            construct="%s/state/%s" % (fq, x.attr), msg="the framer %s self.%s: the dispatch sequence can depend on more than the "
                            "concatenated bytes" % ("writes" if isinstance(x.ctx, ast.Store) else "reads", x.attr))
         ctx.ob("F1", "%s framer state is the carry buffer only" % cq, True, nontrivial=False, where=w0, construct="%s/state" % framer_q)
-        # which idiom: (a) carry re-bound to its suffix after each packet, or (b) a local offset advanced per packet and one trim at the end
-        off_terms = set()
-        for bp in outer.a["body"]:
-            for e in bp.events:
-                if e.kind == "CALL" and e.a["recv"] == SELF and e.func == framer_q and e.a["args"] and isinstance(e.a["args"][0], tuple) \
-                        and e.a["args"][0][0] == "slice" and e.a["args"][0][1] == B and e.a["args"][0][2] != NONE:
-                    off_terms.add(e.a["args"][0][2])
-        if off_terms:
-            n_disp += offset_idiom(ctx, cls, cq, prog, p0, ent, outer, B, carry, framer_q, framer, cont, off_terms)
-            continue
-        # scan variable initialised to 1 before the width scan
-        scan_ok = False
-        for x in ast.walk(framer.node):
-            body = getattr(x, "body", None)
-            if not isinstance(body, list):
-                continue
-            for i, s in enumerate(body):
-                if isinstance(s, ast.While) and s is not outer.node:
-                    idx = [y for y in ast.walk(s) if isinstance(y, ast.Subscript) and isinstance(y.value, ast.Attribute) and y.value.attr == carry
-                           and isinstance(y.slice, ast.Name)]
-                    if not idx:
-                        continue
-                    v = idx[0].slice.id
-                    prev = [t for t in body[:i] if isinstance(t, ast.Assign) and len(t.targets) == 1 and isinstance(t.targets[0], ast.Name)
-                            and t.targets[0].id == v]
-                    if prev and isinstance(prev[-1].value, ast.Constant) and prev[-1].value.value == 1:
-                        scan_ok = True
-        ctx.ob("F3", "%s width scan starts at index 1" % cq, scan_ok, where=w0, function=framer_q, construct="%s/scan-start" % framer_q,
-               msg="the scan of the remaining-length field does not start at byte 1 of the carry")
         for bp in outer.a["body"]:
             evs = bp.events
-            D = None
-            for e in evs:
-                if e.kind == "CALL" and e.a["recv"] == SELF and e.func == framer_q and e.a["args"] and mentions(e.a["args"][0], B):
-                    D = e
-                    break
-            sets = [e for e in evs if e.kind == "SETATTR" and e.a["obj"] == SELF and e.func == framer_q]
-            muts = [e for e in evs if e.kind == "MCALL" and e.a["obj"] == B and e.func == framer_q]
+            D = dispatch_of(evs)
+            own = [e for e in bp.walk() if D is None or (e is not D and not inside(e, D))]
+            sets = [e for e in own if e.kind == "SETATTR" and e.a["obj"] == SELF]
+            muts = [e for e in own if e.kind == "MCALL" and e.a["obj"] == B]
             if D is None:
                 # F4 / F6(b)
                 ctx.ob("F4", "%s a path that dispatches nothing leaves the carry alone" % cq, not sets and not muts,
@@ -129,7 +135,7 @@ def check(ctx):
                        msg="an iteration that consumes nothing continues the loop (exit=%s): a decoded length can go stale or the loop spin" % bp.exit_kind())
                 continue
             # infeasible arm: decoded length already known at the loop head (excluded by F6 on all other paths)
-            fresh = any(e.kind == "RET" and e.a["func"].endswith(".decodeLength") for e in evs)
+            fresh = any(e.kind == "RET" and e.a["func"].endswith(".decodeLength") for e in own)
             if not fresh:
                 continue
             n_disp += 1
@@ -142,14 +148,14 @@ def check(ctx):
             ok = sl[2] == NONE and sl[4] == NONE and len(D.a["args"]) == 1
             ctx.ob("F2", "%s the dispatched packet is carry[:E]" % cq, ok, where=where(D), function=framer_q, construct="%s/dispatch-slice" % framer_q,
                    msg="dispatcher called with %s" % show(sl))
-            after = [e for e in sets if evs.index(e) > evs.index(D)]
+            after = [e for e in sets if e.seq > D.seq]
             ok2 = len(sets) == 1 and len(after) == 1 and after[0].a["field"] == carry and after[0].a["val"] == ("slice", B, E, NONE, NONE)
             ctx.ob("F2", "%s the carry becomes carry[E:] with the same E, once, after the dispatch" % cq, ok2, where=where(sets[0]) if sets else where(D),
                    function=framer_q, construct="%s/consume" % framer_q,
                    msg="dispatched carry[:%s] but the carry is reassigned to %s" % (show(E), [show(s.a["val"]) for s in sets]))
             guard = False
             lenB = ("call", ("builtin", "len"), (B,))
-            for c in bp.conds:
+            for c in D.conds:
                 t, pol = c.term, c.pol
                 while isinstance(t, tuple) and t and t[0] == "not":
                     t, pol = t[1], not pol
@@ -160,17 +166,13 @@ def check(ctx):
                         guard = True
             ctx.ob("F2", "%s dispatch and consumption only when the whole packet has arrived (len(carry) >= E)" % cq, guard, where=where(D),
                    function=framer_q, construct="%s/complete-guard" % framer_q,
-                   msg="no len(carry) >= E test dominates the dispatch: conditions %s" % [repr(c) for c in bp.conds][-3:])
+                   msg="no len(carry) >= E test dominates the dispatch: conditions %s" % [repr(c) for c in D.conds][-3:])
             # F3
-            ret = [e for e in evs if e.kind == "RET" and e.a["func"].endswith(".decodeLength")]
-            call = [e for e in evs if e.kind == "CALL" and e.a["func"].endswith(".decodeLength")]
-            from_one = bool(call) and call[0].a["args"] == (("slice", B, ("const", 1), NONE, NONE),)
-            ctx.ob("F3", "%s remaining length decoded from the carry starting at byte 1" % cq, from_one, where=where(call[0]) if call else where(D),
-                   function=framer_q, construct="%s/length-source" % framer_q, msg="decodeLength applied to %s" % ([show(x) for x in call[0].a["args"]] if call else None))
-            leaves = leaves_of_sum(E)
-            scan_loops = [e for e in evs if e.kind == "LOOP" and e.func == framer_q]
+            ret = [e for e in own if e.kind == "RET" and e.a["func"].endswith(".decodeLength")]
+            call = [e for e in own if e.kind == "CALL" and e.a["func"].endswith(".decodeLength")]
+            scan_loops = [e for e in own if e.kind == "LOOP" and not e.func.startswith("mqtt.pdu.") and e is not outer]
             scan_vars = set()
-            allconds = list(bp.conds)
+            allconds = list(D.conds)
             for lp in scan_loops:
                 for sb in lp.a["body"]:
                     allconds.extend(sb.conds)
@@ -182,7 +184,31 @@ def check(ctx):
                 for x in subterms(c.term):
                     if isinstance(x, tuple) and x[:2] == ("sub", B) and isinstance(x[2], tuple) and x[2][0] == "unk":
                         scan_vars.add(x[2])
-            okE = len(leaves) == 3 and ("const", 1) in leaves and bool(ret) and ret[0].a["val"] in leaves and any(v in leaves for v in scan_vars)
+            # the scan variable starts at 1 (byte 0 is the type/flags byte): its value before the scan loop
+            scan_ok = False
+            for lp in scan_loops:
+                pre = lp.a.get("pre") or {}
+                for v in scan_vars:
+                    nm = str(v[1]).partition("@loop")
+                    if nm[2] == str(lp.a.get("loop")) and pre.get(nm[0]) == ("const", 1):
+                        scan_ok = True
+            ctx.ob("F3", "%s width scan starts at index 1" % cq, scan_ok, where=where(scan_loops[0]) if scan_loops else w0, function=framer_q,
+                   construct="%s/scan-start" % framer_q, msg="the scan of the remaining-length field does not start at byte 1 of the carry")
+            src = call[0].a["args"][0] if call and call[0].a["args"] else None
+            from_one = isinstance(src, tuple) and src[:3] == ("slice", B, ("const", 1)) and src[4] == NONE and (
+                src[3] == NONE or any(src[3] in (("binop", "Add", v, ("const", 1)), ("binop", "Add", ("const", 1), v)) for v in scan_vars))
+            ctx.ob("F3", "%s remaining length decoded from the carry starting at byte 1" % cq, from_one, where=where(call[0]) if call else where(D),
+                   function=framer_q, construct="%s/length-source" % framer_q, msg="decodeLength applied to %s" % ([show(x) for x in call[0].a["args"]] if call else None))
+            leaves = leaves_of_sum(E)
+            rl = leaves_of_sum(ret[0].a["val"]) if ret else []
+            rest = list(leaves)
+            okE = bool(ret)
+            for x in rl:
+                if x in rest:
+                    rest.remove(x)
+                else:
+                    okE = False
+            okE = okE and len(rest) == 2 and ("const", 1) in rest and any(v in rest for v in scan_vars)
             ctx.ob("F3", "%s E = decoded length + width of the length field + 1" % cq, okE, where=where(D), function=framer_q,
                    construct="%s/extent" % framer_q, msg="packet extent computed as %s" % show(E))
             masks = set()
@@ -200,7 +226,8 @@ def check(ctx):
                    msg="after consuming a packet the local(s) %s still hold its decoded length: the next packet is framed with a stale length" % names)
             # F7
             depth = len(D.stack) + 1
-            inner_calls = [e for e in bp.walk() if e.kind == "CALL" and len(e.stack) == depth and e.stack[:len(D.stack)] == D.stack and e.a["recv"] == SELF]
+            inner_calls = [e for e in bp.walk() if e.kind == "CALL" and len(e.stack) == depth and e.stack[:len(D.stack)] == D.stack and e.a["recv"] == SELF
+                           and inside(e, D)]
             ctx.ob("F7", "%s dispatcher hands the whole packet to at most one handler" % cq,
                    len(inner_calls) <= 1 and all(x.a["args"] == (sl,) for x in inner_calls), where=where(inner_calls[0]) if inner_calls else where(D),
                    function=D.a["func"], construct="%s/handler-arg" % D.a["func"],
